@@ -5,6 +5,12 @@
   The model groups the rows of all source keys by member, in table order; the specification walks
   the key list in the order given. The two see the same scores per member up to a permutation
   (`scores_perm`), which is all that `min`, `max` and a sum of at most two terms can see.
+
+  A key named twice. `where key in (…)` reads each named key once, and (since the repair of D07)
+  `having count(distinct kid)` is compared with the number of DISTINCT keys: the model's result for
+  `ks` is its result for `dedup ks` (`model_zCombine_dedup`). The specification walks `ks` as
+  given; it has the same members for `ks` and `dedup ks` (`sMembers_dedup`) and, for `min` and
+  `max`, the same scores (`spec_zCombine_dedup`); a `sum` counts the repeated key twice.
 -/
 import RedkaModel.Proofs.ZSetWrite
 
@@ -317,6 +323,35 @@ theorem nodup_dedup {α : Type} [DecidableEq α] : ∀ (l : List α), (dedup l).
     · rename_i hx
       exact List.nodup_cons.2 ⟨fun h => hx ((mem_dedup x xs).1 h), nodup_dedup xs⟩
 
+theorem dedup_cons {α : Type} [DecidableEq α] (x : α) (xs : List α) :
+    dedup (x :: xs) = if x ∈ xs then dedup xs else x :: dedup xs := by
+  rw [dedup]
+
+theorem dedup_of_nodup {α : Type} [DecidableEq α] : ∀ {l : List α}, l.Nodup → dedup l = l
+  | [], _ => rfl
+  | x :: xs, h => by
+    have h' := List.nodup_cons.1 h
+    rw [dedup_cons, if_neg h'.1, dedup_of_nodup h'.2]
+
+theorem dedup_dedup {α : Type} [DecidableEq α] (l : List α) : dedup (dedup l) = dedup l :=
+  dedup_of_nodup (nodup_dedup l)
+
+theorem contains_dedup (ks : List Bytes) (k : Bytes) : (dedup ks).contains k = ks.contains k := by
+  rw [Bool.eq_iff_iff, List.contains_iff_mem, List.contains_iff_mem, mem_dedup]
+
+/-- `where key in (…)` does not see a repetition -/
+theorem zKids_dedup (db : DB) (ks : List Bytes) (now : Int) :
+    zKids db (dedup ks) now = zKids db ks now := by
+  unfold zKids
+  congr 1
+  apply List.filter_congr
+  intro r _
+  rw [contains_dedup]
+
+theorem cRows_dedup (db : DB) (ks : List Bytes) (now : Int) :
+    cRows db (dedup ks) now = cRows db ks now := by
+  unfold cRows; rw [zKids_dedup]
+
 def BSorted (s : List Bytes) : Prop := s.Pairwise (fun a b => bytesLt a b = true)
 
 theorem mem_sinsert (x y : Bytes) : ∀ (s : List Bytes), y ∈ sinsert s x ↔ y = x ∨ y ∈ s
@@ -560,9 +595,9 @@ def nullsFirst (a b : Bytes × Option Score) : Bool :=
   | some _, none => false
   | none, none => bytesLt a.1 b.1
 
-/-- `having count(distinct kid) = ?` fails -/
+/-- `having count(distinct kid) = ?` fails; the parameter is the number of distinct keys -/
 def mFail (db : DB) (ks : List Bytes) (now : Int) (inter : Bool) (e : Bytes) : Bool :=
-  inter && !((((cRows db ks now).filter (fun r => r.elem == e)).length : Int) == ks.length)
+  inter && !((((cRows db ks now).filter (fun r => r.elem == e)).length : Int) == (dedup ks).length)
 
 theorem model_zCombine_eq (db : DB) (ks : List Bytes) (agg : Agg) (inter : Bool) (now : Int) :
     Model.zCombine db ks agg inter now =
@@ -605,6 +640,7 @@ theorem members_iff {db : DB} (hz : db.ZWF) (now : Int) {ks : List Bytes} (hks :
     · intro h h2; rw [h2] at hp; exact h hp.symm.eq_nil
   rw [mem_elems_iff, mem_sMembers, hnil, ← hlen, length_mScores]
   unfold mFail
+  rw [dedup_of_nodup hks]
   cases inter with
   | false => simp
   | true =>
@@ -620,7 +656,7 @@ theorem nodup_of_fst {β : Type} {l : List (Bytes × β)} (h : (l.map (·.1)).No
 
 /-- **The heart of union / intersection.** For a list of distinct keys, whenever the specification
 produces a result `r` (no aggregate is NaN), the model's ordered group list is `r` in rank order. -/
-theorem zCombine_match {db : DB} (hz : db.ZWF) (now : Int) {ks : List Bytes} (hks : ks.Nodup)
+theorem zCombine_match_nodup {db : DB} (hz : db.ZWF) (now : Int) {ks : List Bytes} (hks : ks.Nodup)
     (agg : Agg) (hord : agg ≠ .sum ∨ ks.length ≤ 2) (inter : Bool) {r : List (Bytes × Score)}
     (hr : Spec.zCombine (abs now db) ks agg inter = some r) :
     Model.zCombine db ks agg inter now = (zsorted r).map withScore := by
@@ -681,6 +717,201 @@ theorem zCombine_match {db : DB} (hz : db.ZWF) (now : Int) {ks : List Bytes} (hk
     obtain ⟨h1, h2⟩ := (members_iff hz now hks inter e).2 he
     exact ⟨e, h1, sc, by simp [g, h2, hg], rfl⟩
 
+/-! ### a key named twice -/
+
+/-- the model's combination for `ks` is its combination for the distinct keys of `ks` -/
+theorem model_zCombine_dedup (db : DB) (ks : List Bytes) (agg : Agg) (inter : Bool) (now : Int) :
+    Model.zCombine db (dedup ks) agg inter now = Model.zCombine db ks agg inter now := by
+  rw [model_zCombine_eq, model_zCombine_eq]
+  unfold mFail mScores
+  rw [cRows_dedup, dedup_dedup]
+
+theorem sScores_cons (s : State) (k : Bytes) (ks : List Bytes) (e : Bytes) :
+    sScores s (k :: ks) e = (aget (zsetAt s k) e).toList ++ sScores s ks e := by
+  unfold sScores
+  rw [List.map_cons, List.filterMap_cons]
+  cases aget (zsetAt s k) e <;> rfl
+
+theorem mem_sScores (s : State) (ks : List Bytes) (e : Bytes) (x : Score) :
+    x ∈ sScores s ks e ↔ ∃ k ∈ ks, aget (zsetAt s k) e = some x := by
+  unfold sScores
+  simp only [List.mem_filterMap, List.mem_map]
+  constructor
+  · rintro ⟨z, ⟨k, hk, rfl⟩, hx⟩; exact ⟨k, hk, hx⟩
+  · rintro ⟨k, hk, hx⟩; exact ⟨_, ⟨k, hk, rfl⟩, hx⟩
+
+theorem sScores_dedup_nil (s : State) (ks : List Bytes) (e : Bytes) :
+    sScores s (dedup ks) e = [] ↔ sScores s ks e = [] := by
+  simp only [List.eq_nil_iff_forall_not_mem, mem_sScores, mem_dedup]
+
+/-- folding an idempotent, right-commutative operation: a term that occurs again is absorbed -/
+theorem foldl_absorb (f : Score → Score → Score) (hrc : ∀ z a b, f (f z a) b = f (f z b) a)
+    (hid : ∀ z a, f (f z a) a = f z a) (x : Score) : ∀ (l : List Score) (z : Score), x ∈ l →
+    l.foldl f (f z x) = l.foldl f z
+  | [], _, h => by cases h
+  | y :: l, z, h => by
+    rw [List.foldl_cons, List.foldl_cons]
+    by_cases hxy : x = y
+    · subst hxy; rw [hid]
+    · have hx : x ∈ l := by
+        rcases List.mem_cons.1 h with h | h
+        · exact absurd h hxy
+        · exact h
+      rw [hrc, foldl_absorb f hrc hid x l (f z y) hx]
+
+theorem foldl_sScores_dedup (f : Score → Score → Score) (hrc : ∀ z a b, f (f z a) b = f (f z b) a)
+    (hid : ∀ z a, f (f z a) a = f z a) (s : State) (e : Bytes) : ∀ (ks : List Bytes) (z : Score),
+    (sScores s (dedup ks) e).foldl f z = (sScores s ks e).foldl f z
+  | [], _ => rfl
+  | k :: ks, z => by
+    rw [sScores_cons, List.foldl_append, dedup_cons]
+    split
+    · rename_i hk
+      rw [foldl_sScores_dedup f hrc hid s e ks z]
+      cases hx : aget (zsetAt s k) e with
+      | none => rfl
+      | some x =>
+        simp only [Option.toList_some, List.foldl_cons, List.foldl_nil]
+        exact (foldl_absorb f hrc hid x _ z ((mem_sScores s ks e x).2 ⟨k, hk, hx⟩)).symm
+    · rw [sScores_cons, List.foldl_append, foldl_sScores_dedup f hrc hid s e ks]
+
+theorem min_idem (z a : Score) : Score.min (Score.min z a) a = Score.min z a := by
+  cases z <;> cases a <;> simp [Score.min, Score.lt] <;> grind
+
+theorem max_idem (z a : Score) : Score.max (Score.max z a) a = Score.max z a := by
+  cases z <;> cases a <;> simp [Score.max, Score.lt] <;> grind
+
+/-- `min` and `max` do not see a repetition; a `sum` does -/
+theorem specFold_dedup {agg : Agg} (h : agg ≠ .sum) (s : State) (ks : List Bytes) (e : Bytes) :
+    specFold agg (sScores s (dedup ks) e) = specFold agg (sScores s ks e) := by
+  cases agg with
+  | sum => exact absurd rfl h
+  | min =>
+    rw [specFold_min, specFold_min, foldl_sScores_dedup _ min_rc min_idem]
+    simp only [sScores_dedup_nil]
+  | max =>
+    rw [specFold_max, specFold_max, foldl_sScores_dedup _ max_rc max_idem]
+    simp only [sScores_dedup_nil]
+
+theorem bsorted_sMembers (s : State) (ks : List Bytes) (inter : Bool) : BSorted (sMembers s ks inter) := by
+  unfold sMembers
+  simp only []
+  split
+  · exact List.Pairwise.filter _ (sorted_sfromList _)
+  · exact sorted_sfromList _
+
+theorem mem_sMembers' (s : State) (ks : List Bytes) (inter : Bool) (m : Bytes) :
+    m ∈ sMembers s ks inter ↔
+      (∃ k ∈ ks, m ∈ (zsetAt s k).map (·.1)) ∧
+        (inter = true → ∀ k ∈ ks, (aget (zsetAt s k) m).isSome = true) := by
+  unfold sMembers
+  cases inter with
+  | false =>
+    simp only [Bool.false_eq_true, if_false, mem_sfromList, List.mem_flatMap, List.mem_map,
+      false_implies, and_true]
+    constructor
+    · rintro ⟨z, ⟨k, hk, rfl⟩, hm⟩; exact ⟨k, hk, hm⟩
+    · rintro ⟨k, hk, hm⟩; exact ⟨_, ⟨k, hk, rfl⟩, hm⟩
+  | true =>
+    simp only [if_true, List.mem_filter, mem_sfromList, List.mem_flatMap, List.mem_map,
+      List.all_eq_true, true_implies]
+    constructor
+    · rintro ⟨⟨z, ⟨k, hk, rfl⟩, hm⟩, hall⟩
+      exact ⟨⟨k, hk, hm⟩, fun k' hk' => hall _ ⟨k', hk', rfl⟩⟩
+    · rintro ⟨⟨k, hk, hm⟩, hall⟩
+      refine ⟨⟨_, ⟨k, hk, rfl⟩, hm⟩, ?_⟩
+      rintro z ⟨k', hk', rfl⟩
+      exact hall k' hk'
+
+/-- the members of a union / intersection do not depend on how often a key is named -/
+theorem sMembers_dedup (s : State) (ks : List Bytes) (inter : Bool) :
+    sMembers s (dedup ks) inter = sMembers s ks inter := by
+  apply pairwise_unique strictTotal_bytes (bsorted_sMembers _ _ _) (bsorted_sMembers _ _ _)
+  intro m
+  simp only [mem_sMembers', mem_dedup]
+
+/-- one step of the specification's fold, as a function of the scores of the member -/
+def specStep (agg : Agg) (sc : List Score) (m : Bytes) (acc : Option (List (Bytes × Score))) :
+    Option (List (Bytes × Score)) :=
+  match acc with
+  | none => none
+  | some l =>
+    match sc with
+    | [] => some l
+    | x :: xs =>
+      match xs.foldl (fun a y => a.bind (fun a => aggOne agg a y)) (some x) with
+      | none => none
+      | some v => some ((m, v) :: l)
+
+theorem specStep_congr {agg : Agg} {sc sc' : List Score} (hn : sc = [] ↔ sc' = [])
+    (hf : specFold agg sc = specFold agg sc') (m : Bytes) (acc : Option (List (Bytes × Score))) :
+    specStep agg sc m acc = specStep agg sc' m acc := by
+  cases acc with
+  | none => rfl
+  | some l =>
+    cases sc with
+    | nil => rw [hn.1 rfl]
+    | cons x xs =>
+      cases sc' with
+      | nil => exact absurd (hn.2 rfl) (by simp)
+      | cons y ys =>
+        have hf' : xs.foldl (fun a y => a.bind (fun a => aggOne agg a y)) (some x)
+            = ys.foldl (fun a y => a.bind (fun a => aggOne agg a y)) (some y) := hf
+        simp only [specStep, hf']
+
+/-- for `min` and `max` the specification's result does not depend on how often a key is named -/
+theorem spec_zCombine_dedup {agg : Agg} (h : agg ≠ .sum) (s : State) (ks : List Bytes) (inter : Bool) :
+    Spec.zCombine s (dedup ks) agg inter = Spec.zCombine s ks agg inter := by
+  rw [spec_zCombine_eq, spec_zCombine_eq, sMembers_dedup]
+  show List.foldr (fun m acc => specStep agg (sScores s (dedup ks) m) m acc) (some []) _
+    = List.foldr (fun m acc => specStep agg (sScores s ks m) m acc) (some []) _
+  congr 1
+  funext m acc
+  exact specStep_congr (sScores_dedup_nil s ks m) (specFold_dedup h s ks m) m acc
+
+/-- the members of the specification's result -/
+theorem spec_result_members {s : State} {ks : List Bytes} {agg : Agg} {inter : Bool}
+    {r : List (Bytes × Score)} (h : Spec.zCombine s ks agg inter = some r) :
+    r.map (·.1) = sMembers s ks inter := by
+  obtain ⟨hr, hall⟩ := spec_zCombine_char h
+  rw [hr]
+  generalize sMembers s ks inter = M at hall
+  induction M with
+  | nil => rfl
+  | cons m M ih =>
+    obtain ⟨sc, hsc⟩ := Option.ne_none_iff_exists'.1 (hall m (by simp))
+    rw [List.filterMap_cons, hsc]
+    simp only [Option.map_some, List.map_cons]
+    rw [ih (fun x hx => hall x (List.mem_cons_of_mem _ hx))]
+
+/-- **The heart of union / intersection, any key list.** For a list of distinct keys, or for `min`
+and `max` and any key list: whenever the specification produces a result `r` (no aggregate is
+NaN), the model's ordered group list is `r` in rank order. -/
+theorem zCombine_match {db : DB} (hz : db.ZWF) (now : Int) {ks : List Bytes} (agg : Agg)
+    (hks : ks.Nodup ∨ agg ≠ .sum) (hord : agg ≠ .sum ∨ ks.length ≤ 2) (inter : Bool)
+    {r : List (Bytes × Score)} (hr : Spec.zCombine (abs now db) ks agg inter = some r) :
+    Model.zCombine db ks agg inter now = (zsorted r).map withScore := by
+  rcases hks with hks | hns
+  · exact zCombine_match_nodup hz now hks agg hord inter hr
+  · rw [← model_zCombine_dedup]
+    exact zCombine_match_nodup hz now (nodup_dedup ks) agg (Or.inl hns) inter
+      (by rw [spec_zCombine_dedup hns]; exact hr)
+
+/-- A key named twice, any aggregate. The model answers as for the list of distinct keys, and that
+answer has exactly the members of the specification's answer for the list as given (the scores
+agree for `min` and `max`; a `sum` adds the repeated key's score once in the model, once per
+occurrence in the specification). -/
+theorem zCombine_members {db : DB} (hz : db.ZWF) (now : Int) (ks : List Bytes) (agg : Agg)
+    (hord : agg ≠ .sum ∨ (dedup ks).length ≤ 2) (inter : Bool) {r r' : List (Bytes × Score)}
+    (hr : Spec.zCombine (abs now db) ks agg inter = some r)
+    (hr' : Spec.zCombine (abs now db) (dedup ks) agg inter = some r') :
+    Model.zCombine db ks agg inter now = (zsorted r').map withScore ∧
+      r'.map (·.1) = r.map (·.1) := by
+  refine ⟨?_, ?_⟩
+  · rw [← model_zCombine_dedup]
+    exact zCombine_match_nodup hz now (nodup_dedup ks) agg hord inter hr'
+  · rw [spec_result_members hr, spec_result_members hr', sMembers_dedup]
+
 /-! ### `Inter` / `Union` without storing -/
 
 theorem any_isNone_withScore (l : List (Bytes × Score)) :
@@ -697,15 +928,29 @@ theorem items_withScore (l : List (Bytes × Score)) :
   | nil => rfl
   | cons p l ih => rw [List.filterMap_cons, List.map_cons, ih]; rfl
 
-theorem zCombineRun_refines {db : DB} (hz : db.ZWF) (now : Int) {ks : List Bytes} (hks : ks.Nodup)
-    (agg : Agg) (hord : agg ≠ .sum ∨ ks.length ≤ 2) (inter : Bool) {r : List (Bytes × Score)}
-    (hr : Spec.zCombine (abs now db) ks agg inter = some r) :
+theorem zCombineRun_refines {db : DB} (hz : db.ZWF) (now : Int) {ks : List Bytes} (agg : Agg)
+    (hks : ks.Nodup ∨ agg ≠ .sum) (hord : agg ≠ .sum ∨ ks.length ≤ 2) (inter : Bool)
+    {r : List (Bytes × Score)} (hr : Spec.zCombine (abs now db) ks agg inter = some r) :
     Refines now (zCombineRun db ks agg inter now)
       (Spec.ok (.list ((zsorted r).map Spec.zItem)) (abs now db)) := by
   unfold zCombineRun
-  simp only [zCombine_match hz now hks agg hord inter hr, any_isNone_withScore, Bool.false_eq_true,
+  simp only [zCombine_match hz now agg hks hord inter hr, any_isNone_withScore, Bool.false_eq_true,
     if_false, items_withScore]
   exact refines_same hz.toWF _
+
+/-- `Inter` / `Union` over a list that names a key twice, any aggregate: the answer is the answer
+for the distinct keys, and has the members of the specification's answer -/
+theorem zCombineRun_members {db : DB} (hz : db.ZWF) (now : Int) (ks : List Bytes) (agg : Agg)
+    (hord : agg ≠ .sum ∨ (dedup ks).length ≤ 2) (inter : Bool) {r r' : List (Bytes × Score)}
+    (hr : Spec.zCombine (abs now db) ks agg inter = some r)
+    (hr' : Spec.zCombine (abs now db) (dedup ks) agg inter = some r') :
+    zCombineRun db ks agg inter now = ⟨.ok (.list ((zsorted r').map Spec.zItem)), db⟩ ∧
+      r'.map (·.1) = r.map (·.1) := by
+  obtain ⟨h1, h2⟩ := zCombine_members hz now ks agg hord inter hr hr'
+  refine ⟨?_, h2⟩
+  unfold zCombineRun
+  simp only [h1, any_isNone_withScore, Bool.false_eq_true, if_false, items_withScore]
+  rfl
 
 /-! ### the storing variants -/
 
@@ -897,12 +1142,7 @@ theorem zInsertAll_ok (now : Int) (id : Int) (k : Bytes) (et : Option Int) (s : 
 theorem sorted_spec_result {s : State} {ks : List Bytes} {agg : Agg} {inter : Bool}
     {r : List (Bytes × Score)} (h : Spec.zCombine s ks agg inter = some r) : Sorted r := by
   rw [(spec_zCombine_char h).1]
-  have hM : BSorted (sMembers s ks inter) := by
-    unfold sMembers
-    simp only []
-    split
-    · exact List.Pairwise.filter _ (sorted_sfromList _)
-    · exact sorted_sfromList _
+  have hM : BSorted (sMembers s ks inter) := bsorted_sMembers s ks inter
   unfold Sorted
   refine List.Pairwise.filterMap _ ?_ hM
   intro a a' haa b hb b' hb'
@@ -919,10 +1159,10 @@ theorem sorted_spec_result {s : State} {ks : List Bytes} {agg : Agg} {inter : Bo
 theorem length_zsorted (r : List (Bytes × Score)) : (zsorted r).length = r.length :=
   length_sortBy _ r
 
-/-- `InterCmd.store` / `UnionCmd.store` outside D05, D07, D08: the destination ends up holding
+/-- `InterCmd.store` / `UnionCmd.store` outside D05, D08: the destination ends up holding
 exactly the result computed on the state before the call -/
 theorem zCombineStore_refines {db : DB} (hz : db.ZWF) {now : Int} {d : Bytes} {ks : List Bytes}
-    (hks : ks.Nodup) (hd : d ∉ ks) (hns : staleKey db now d = false) (agg : Agg)
+    (agg : Agg) (hks : ks.Nodup ∨ agg ≠ .sum) (hd : d ∉ ks) (hns : staleKey db now d = false)
     (hord : agg ≠ .sum ∨ ks.length ≤ 2) (inter : Bool) {r : List (Bytes × Score)}
     (hr : Spec.zCombine (abs now db) ks agg inter = some r) :
     Refines now (update (fun x => zCombineStore x d ks agg inter now) db)
@@ -943,7 +1183,7 @@ theorem zCombineStore_refines {db : DB} (hz : db.ZWF) {now : Int} {d : Bytes} {k
     obtain ⟨db3, h3, _, ha3⟩ := zInsertAll_ok now r2.id d et (abs now db) hs hps hlive (zsorted r) db2 0
       hz2 ⟨r2, hm, rfl, hty, hk, het⟩ hnd (by intro p _; rw [hA]; rfl) (by rw [hA]; exact hb)
     refine ⟨db3, ?_, ?_⟩
-    · rw [zCombine_match hz2 now hks agg hord inter hr2, h3, length_zsorted]
+    · rw [zCombine_match hz2 now agg hks hord inter hr2, h3, length_zsorted]
       simp
     · rw [ha3, hA, foldl_aput_zsorted hsr]
   rcases zholder hz.toWF now d with ⟨h, hg, hl⟩ | ⟨_, h, hlv, _, _⟩ | ⟨old, h, hlv, ht, hg, hl⟩ |
